@@ -97,6 +97,7 @@ theorem step_extLog (allowed : Option (List Cap)) (s : St) (op : Op) :
     ExtLog allowed s (step ⟨true, true⟩ allowed s op) := by
   cases op with
   | register n t => exact ⟨[], by simp [step], by simp⟩
+  | unregister n => exact ⟨[], by simp [step], by simp⟩
   | metabolize pre callee argsOk => exact (metabolize_ext allowed s pre callee argsOk).2
   | call n => exact (executeToolCall_ext allowed s n).2
   | loop k auto rounds =>
